@@ -3,6 +3,7 @@
 From Coq Require Import List NArith ZArith Lia Bool.
 From AnyTLS Require Import Bytes Cmd Generated GeneratedFacts Frame Reader Session BytesFacts FrameProofs SessTable.
 Import ListNotations.
+Import Sess.
 Open Scope N_scope.
 
 Definition cfg_ok (c : cfg) : Prop := lenN (c_scheme c) <= max_payload.
@@ -31,7 +32,7 @@ Definition vrun (c : cfg) (b : N) (fs : list frame) (v : option stream * list st
 (* fields no dispatch arm other than Alert / a failing Settings reply touches *)
 Lemma with_tbl_fields st t g :
   next_id (with_tbl st t g) = next_id st /\ peer_version (with_tbl st t g) = peer_version st /\
-  closed (with_tbl st t g) = closed st /\ dead (with_tbl st t g) = dead st /\
+  s_closed (with_tbl st t g) = s_closed st /\ dead (with_tbl st t g) = dead st /\
   sendq (with_tbl st t g) = sendq st /\ tbl (with_tbl st t g) = t /\ gone (with_tbl st t g) = g.
 Proof. repeat split. Qed.
 
@@ -55,7 +56,7 @@ Qed.
 
 Lemma install_fields sid st :
   next_id (install sid st) = next_id st /\ peer_version (install sid st) = peer_version st /\
-  closed (install sid st) = closed st /\ dead (install sid st) = dead st /\ sendq (install sid st) = sendq st.
+  s_closed (install sid st) = s_closed st /\ dead (install sid st) = dead st /\ sendq (install sid st) = sendq st.
 Proof. unfold install. destruct (detach sid (tbl st) (gone st)). repeat split. Qed.
 
 (* ---- the central locality lemma *)
@@ -119,7 +120,7 @@ Qed.
 (* closed / next_id / sendq never change by a non-Alert frame; dead only by a Settings reply that cannot be encoded *)
 Lemma handle_flags c st f :
   no_alert f ->
-  closed (fst (handle c st f)) = closed st /\ next_id (fst (handle c st f)) = next_id st /\
+  s_closed (fst (handle c st f)) = s_closed st /\ next_id (fst (handle c st f)) = next_id st /\
   sendq (fst (handle c st f)) = sendq st /\
   (cfg_ok c -> dead (fst (handle c st f)) = dead st).
 Proof.
@@ -169,7 +170,7 @@ Lemma handle_all_view c b fs : forall st,
   cfg_ok c -> Forall no_alert fs -> dead st = false ->
   view b (fst (handle_all c st fs)) = vrun c b fs (view b st) /\
   dead (fst (handle_all c st fs)) = false /\
-  closed (fst (handle_all c st fs)) = closed st /\
+  s_closed (fst (handle_all c st fs)) = s_closed st /\
   next_id (fst (handle_all c st fs)) = next_id st /\
   sendq (fst (handle_all c st fs)) = sendq st.
 Proof.
@@ -268,7 +269,7 @@ Proof.
              as (s' & H1 & H2 & H3 & H4).
            exists s'. unfold resolve in *. destruct (synack s) eqn:Es; cbn [rd sclosed synack] in *;
              repeat split; try assumption; try congruence.
-           intros _. rewrite H4; [reflexivity | discriminate].
+           intros _. rewrite H4; [exact Es | rewrite Es; discriminate].
         -- destruct (IH s old Hfs) as (s' & H1 & H2 & H3 & H4); exists s'; repeat split; assumption.
     + rewrite andb_false_r. apply IH. exact Hfs.
 Qed.
@@ -288,7 +289,7 @@ Qed.
 (* ---- key invariant: the table has unique keys *)
 Definition wf_sess (st : sess) : Prop := NoDup (keys (tbl st)).
 
-Lemma wf_init c : wf_sess (init c).
+Lemma wf_init c : wf_sess (init_sess c).
 Proof. constructor. Qed.
 
 Lemma install_wf sid st : wf_sess st -> wf_sess (install sid st).
@@ -298,9 +299,6 @@ Proof.
   destruct (detach sid (tbl st) (gone st)) as [t g]. cbn [fst] in Hd.
   cbn [with_tbl tbl]. apply nodup_insert. exact Hd.
 Qed.
-
-Lemma close_wf st : wf_sess (fst (close st)) .
-Proof. unfold close. destruct (closed st) eqn:E; cbn [fst]. Abort.
 
 Lemma handle_wf c st f : wf_sess st -> wf_sess (fst (handle c st f)).
 Proof.
@@ -314,7 +312,7 @@ Proof.
     destruct (_ && (max_payload <? lenN (c_scheme c))); [exact H|].
     destruct (map_get key_v (fdata f)) as [vs|]; [|exact H].
     destruct (parse_u8 vs) as [v|]; [|exact H]. destruct (2 <=? v); exact H.
-  - unfold close. destruct (closed st); cbn [fst with_dead tbl]; [exact H | constructor].
+  - unfold close. destruct (s_closed st); cbn [fst with_dead tbl]; [exact H | constructor].
   - destruct (is_client c); [|exact H].
     destruct (lookup (fsid f) (tbl st)); cbn [fst]; [apply nodup_insert; exact H | exact H].
   - destruct (is_client c && negb (is_nil (fdata f))); [|exact H].
@@ -340,7 +338,7 @@ Lemma fin_effect c st sid d :
   only sid (gone st') = detached (lookup sid (tbl st)) (only sid (gone st)) /\
   (forall b, b <> sid -> only b (gone st') = only b (gone st)) /\
   length (tbl st') = match lookup sid (tbl st) with Some _ => pred (length (tbl st)) | None => length (tbl st) end /\
-  closed st' = closed st /\ dead st' = dead st /\ sendq st' = sendq st /\
+  s_closed st' = s_closed st /\ dead st' = dead st /\ sendq st' = sendq st /\
   peer_version st' = peer_version st /\ next_id st' = next_id st.
 Proof.
   intros Hwf. cbv zeta. unfold handle. cbn [mk fcmd fsid fdata].
@@ -352,7 +350,7 @@ Proof.
   { intros b Hb. pose proof (detach_view_neq sid b (tbl st) (gone st) ltac:(congruence)) as H.
     destruct (detach sid (tbl st) (gone st)). exact H. }
   destruct (detach sid (tbl st) (gone st)) as [t g]. cbn [fst snd] in *. destruct He as [He1 He2].
-  cbn [with_tbl tbl gone closed dead sendq peer_version next_id].
+  cbn [with_tbl tbl gone s_closed dead sendq peer_version next_id].
   repeat split; auto.
   - intros b Hb. apply (Hne b Hb).
   - intros b Hb. apply (Hne b Hb).
